@@ -84,6 +84,13 @@ Ltac split_bools :=
              match type of c with bool => destruct c eqn:?; cbv beta iota zeta end
          end.
 
+(* a pad of provably zero width disappears (e.g. `if len(w) <= sp: pad` pads by 0 when equal) *)
+Ltac zero_pads :=
+  repeat match goal with
+         | |- context [repeat ?x (Z.to_nat ?z)] =>
+             replace z with 0 by lia; cbn [Z.to_nat repeat app]
+         end.
+
 Theorem bridge_kernel s sp w hs : gen_kernel s sp w hs = kernel s sp w hs.
 Proof.
   unfold gen_kernel, kernel, steps_vals, gen_predict_nan, np_all_isnan, np_any_isnan, np_index,
@@ -92,8 +99,8 @@ Proof.
   cbv beta iota zeta. rewrite ?Z.gtb_ltb, ?Z.geb_leb, ?map_indexer, ?repeat_const.
   destruct (all_nan w) eqn:Hnan; destruct (zlen w =? 0) eqn:Hz; cbn [orb andb negb];
     destruct s; cbv beta iota zeta; try reflexivity.
-  - (* last *) split_bools; first [reflexivity | exfalso; lia].
-  - (* mean *) split_bools; cbn [fst snd]; first [reflexivity | exfalso; lia].
+  - (* last *) split_bools; first [reflexivity | exfalso; lia | zero_pads; reflexivity].
+  - (* mean *) split_bools; cbn [fst snd]; first [reflexivity | exfalso; lia | zero_pads; reflexivity].
   - (* drift *)
     destruct (hd None w) as [a|]; destruct (last w None) as [b|];
       cbn [existsb is_nan orb andb negb]; split_bools; try reflexivity; try (exfalso; lia).
